@@ -19,6 +19,8 @@ vars == <<kind, s, a, b, c, d>>
 Edges == {0, 1, 2, 3, 4, TMAX}
 AscSeqs == {SetToSortSeq(es, LAMBDA x, y : x < y) : es \in SUBSET Edges}
 CutVals == <<TMIN, 0 - 1, 0, 1, 2, 3, 4, 5, TMAX, NULL>>
+CutSeqVals == {0, 1, 2, 3, 4, 5, NULL}
+CutSeqLen == IF MaxLen >= 7 THEN 4 ELSE 3
 
 Init ==
     /\ kind \in Kinds
@@ -43,6 +45,15 @@ Init ==
           /\ a \in AscSeqs                                                \* edges
           /\ b \in 0..CutLen                                              \* number of labels
           /\ c \in BOOLEAN /\ d \in BOOLEAN                               \* right, add_bounds
+       \* binning is POSITIONAL: what a value gets does not depend on the values before it.  Every series
+       \* of CutSeqLen values in every ORDER (a value beyond the edges followed by one inside, a later value
+       \* in a lower bin than an earlier one, nulls in between), against every edge vector over 1..4 with at
+       \* least two edges and the matching number of labels
+       \/ /\ kind = "cutseq"
+          /\ s \in [1..CutSeqLen -> CutSeqVals]
+          /\ a \in {e \in AscSeqs : Len(e) >= 2 /\ \A k \in 1..Len(e) : e[k] \in 1..4}
+          /\ c \in BOOLEAN /\ d \in BOOLEAN
+          /\ b = IF d THEN Len(a) + 1 ELSE Len(a) - 1
 
 Next == UNCHANGED vars
 Spec == Init /\ [][Next]_vars
@@ -54,6 +65,9 @@ Laws ==
     /\ (kind = "clip" /\ a = NULL /\ b = NULL) => ClipLaws(s)
     /\ kind = "uniq" => UniqRefines(s)
     /\ (kind = "cut" /\ b = 0 /\ c /\ d) => UniqueBin(a) /\ OpenBoundsTotal(a) /\ ErrorOnlyOutside(a)
+    \* equal values get equal results wherever they stand in the series
+    /\ kind = "cutseq" => /\ CutCallOK(a, b, d)
+                          /\ \A i, j \in 1..Len(s) : s[i] = s[j] => CutOne(s[i], a, c, d) = CutOne(s[j], a, c, d)
 
 EmitMap ==
     PrintT(<<"REPLAY", ToJson(
@@ -69,7 +83,7 @@ EmitMap ==
              [op |-> "clip", s |-> s, lo |-> a, hi |-> b, clip |-> DefClip(s, a, b)]
         [] kind = "uniq" ->
              [op |-> "uniq", s |-> s, firsts |-> RunFirsts(s), lasts |-> RunLasts(s), vals |-> RunValues(s)]
-        [] kind = "cut" ->
+        [] kind \in {"cut", "cutseq"} ->
              [op |-> "cut", s |-> s, bins |-> a, nlabels |-> b, right |-> c, bounds |-> d,
               call_ok |-> CutCallOK(a, b, d),
               exp |-> [i \in 1..Len(s) |-> CutOne(s[i], a, c, d)],
